@@ -58,11 +58,17 @@ pub fn menu() -> Vec<Entry> {
     entry("macro-pad-19-keys", 18, Some("Macro Pad"), Some("/devices/platform/q/input/input18"), Some("120013"), Some("B: KEY=7a0000001000cffe")),
     entry("macro-pad-20-keys-no-f5", 19, Some("Macro Pad"), Some("/devices/platform/p/input/input19"), Some("120013"), Some("B: KEY=7a0000003000cffe")),
     entry("two-normal-keys-only", 22, Some("Button Box"), Some("/devices/platform/o/input/input22"), Some("120013"), Some("B: KEY=ffffff 0 0 0 10000002")),
+    // unusual but legal names
+    entry("name-with-quotes", 24, Some("Vendor \"Pro\" Keyboard"), Some("/devices/platform/m/input/input24"), Some("120013"), Some(KB_KEYS)),
+    entry("name-unicode", 25, Some("Tastatur Ü ⌨"), Some("/devices/platform/l/input/input25"), Some("120013"), Some(KB_KEYS)),
+    entry("name-trailing-space", 26, Some("Spacey Keyboard "), Some("/devices/platform/k/input/input26"), Some("120013"), Some(KB_KEYS)),
+    entry("name-glob-chars", 27, Some("Key*board? [x]"), Some("/devices/platform/j/input/input27"), Some("120013"), Some(KB_KEYS)),
     entry("three-normal-keys", 23, Some("Button Box"), Some("/devices/platform/n/input/input23"), Some("120013"), Some("B: KEY=ffffff 0 0 0 10004002")),
   ]
 }
 
-pub const GLOBS: [&str; 9] = ["AT Translated Set 2 keyboard", "*", "?oo USB Keyboard", "AT*", "*keyboard", "*USB*", "No Such Device", "*Mouse*", "Foo USB Keyboar?"];
+pub const GLOBS: [&str; 16] = ["AT Translated Set 2 keyboard", "*", "?oo USB Keyboard", "AT*", "*keyboard", "*USB*", "No Such Device", "*Mouse*", "Foo USB Keyboar?",
+  "", "**", "*?*", "Key*board? [x]", "Key\\*board*", "*Ü*", "* "];
 
 /// independent glob matcher: `*` any run of characters, `?` exactly one character
 pub fn glob_match(pat: &str, s: &str) -> bool {
@@ -113,7 +119,19 @@ pub fn run(ctx: &Ctx) -> Outcome {
     if r1 != r2k { rep("two-discovery-paths-disagree", format!("entries {:?}: --all-keyboards path sees {:?}, --dev-file --only-if-keyboard path sees {:?}", seq.iter().map(|e| menu[*e].tag).collect::<Vec<_>>(), r1, r2k)); }
   }, |a, b| { a.n += b.n; a.nontrivial += b.nontrivial; for (k, v) in b.bad { match a.bad.get_mut(k) { None => { a.bad.insert(k, v); } Some(e) => { let c = e.0 + v.0; if (v.1.len(), &v.1) < (e.1.len(), &e.1) { *e = v; } e.0 = c; } } } });
   let mut evals = acc.n; let mut nontrivial = acc.nontrivial;
+  // long device lists: the whole menu repeated (72+ entries), forwards and backwards
+  let mut long_fail: Vec<(String, String, Value, u64)> = vec![];
+  for rev in [false, true] { for reps in [1usize, 3, 10] {
+    let mut order: Vec<usize> = (0..k).collect(); if rev { order.reverse(); }
+    let mut text = String::new(); let mut e1 = vec![]; let mut e2 = vec![];
+    for _ in 0..reps { for &e in &order { text.push_str(&menu[e].text); e1.extend(single[e].0.clone()); e2.extend(single[e].1.clone()); } }
+    evals += 1; nontrivial += 1;
+    if crate::keyboard_listing::verif_extract_keyboards(&text) != e1 || crate::keyboard_listing::verif_extract_input_devices(&text) != e2 {
+      long_fail.push(("long-device-list-classified-differently".into(), format!("the whole menu x{} ({}) is not classified entry by entry", reps, if rev { "reversed" } else { "in order" }), json!({"engine": "C16", "tier": "in-process", "text": text}), 1));
+    }
+  } }
   let mut fails: Vec<(String, String, Value, u64)> = acc.bad.into_iter().map(|(c, (n, seq, d))| (c.to_string(), d, json!({"engine": "C16", "tier": "in-process", "entries": seq.iter().map(|e| menu[*e].tag).collect::<Vec<_>>(), "text": seq.iter().map(|e| menu[*e].text.clone()).collect::<String>()}), n)).collect();
+  fails.extend(long_fail);
   // exclusion flaggers against the independent glob matcher
   let names: Vec<String> = menu.iter().map(|e| e.name.unwrap_or("").to_string()).collect();
   let sets = exclude_sets(q);
